@@ -108,6 +108,38 @@ impl SimClient {
     }
 }
 
+/// The scripted answer to a cancel request (shared by `SimClient` and the scripted mock exchange).
+pub fn cancel_response(key: OrderKey<ExchangeId, InstrumentNameExchange>, b: Behav, now_ms: u64) -> UnindexedOrderResponseCancel {
+    let cid = key.cid.0.to_string();
+    let state = match b.resp {
+        Resp::OkOpen | Resp::OkFull => Ok(Cancelled { id: OrderId::new(format!("x-{cid}")), time_exchange: ts(now_ms as i64) }),
+        Resp::Rejected => Err(UnindexedOrderError::Rejected(ApiError::OrderAlreadyCancelled)),
+        Resp::Connectivity => Err(UnindexedOrderError::Connectivity(ConnectivityError::Socket("sim".into()))),
+    };
+    UnindexedOrderResponseCancel { key, state }
+}
+
+/// The scripted answer to an open request.
+pub fn open_response(
+    key: OrderKey<ExchangeId, InstrumentNameExchange>,
+    st: &barter_execution::order::request::RequestOpen,
+    b: Behav,
+    now_ms: u64,
+) -> Order<ExchangeId, InstrumentNameExchange, Result<Open, UnindexedOrderError>> {
+    let cid = key.cid.0.to_string();
+    let state = match b.resp {
+        Resp::OkOpen => Ok(Open { id: OrderId::new(format!("x-{cid}")), time_exchange: ts(now_ms as i64), filled_quantity: dec(0) }),
+        Resp::OkFull => Ok(Open { id: OrderId::new(format!("x-{cid}")), time_exchange: ts(now_ms as i64), filled_quantity: st.quantity }),
+        Resp::Rejected => Err(UnindexedOrderError::Rejected(ApiError::OrderRejected("sim".into()))),
+        Resp::Connectivity => Err(UnindexedOrderError::Connectivity(ConnectivityError::Socket("sim".into()))),
+    };
+    Order { key, side: st.side, price: st.price, quantity: st.quantity, kind: st.kind, time_in_force: st.time_in_force, state }
+}
+
+pub async fn wait_behav(b: Behav) {
+    wait(b).await
+}
+
 async fn wait(b: Behav) {
     match b.delay_ms {
         None => std::future::pending::<()>().await,
